@@ -155,3 +155,15 @@ claim("C09", "other",
       "return alone (hidden state between calls). Known finding F-15 (fft_settings={'n': None} is not kept across calls) reported by its own clause.",
       "Trusted: the analysis' table of allocating calls and copying constructors (the latter proved in C18/C04), scalar hints for index/count locals, numpy determinism.",
       "frame/ownership obligations by may-alias analysis of the AST (contract frames) + bounded native snapshot checks", "DESIGN.md 5/C09")
+
+claim("C15", "other",
+      "Structural obligations discharged on the AST of the real source: each of the 12 settings constructors assigns exactly the public "
+      "attributes it lists in attrs (nothing silently not saved, nothing twice), stores every argument that can be mutable through deepcopy / "
+      "np.array (fresh at every level, so no state is shared with default-argument objects, with the caller or between objects) and stores or "
+      "forwards every argument; Settings.attr_dict hands out deep copies of exactly self.attrs, save dumps it, load assigns every key of the "
+      "file unconditionally (None included); the type-dispatching reader's discriminator table selects the eight classes and loads. Bounded "
+      "(labelled; json is external): real save/load and reader round trips of random legal attribute values (arrays, lists, tuples, None, "
+      "dicts; set by constructor and by assignment) for the 8 classes compared by content, processing / preprocessing with the reloaded "
+      "settings identical, and cross-object / caller-argument / later-default independence by mutating every attribute in place or by assignment.",
+      "Trusted: deepcopy / np.array allocate at every level; json; the table of immutable (number/string/boolean/None) parameters; the AST matcher.",
+      "structural contract obligations on constructor/serialisation ASTs + bounded native round-trip and aliasing checks", "DESIGN.md 5/C15")
